@@ -36,6 +36,14 @@ def run_one(m):
             return m['id'], 'CAUGHT', hit[0][:160]
         if r.returncode == 1:
             return m['id'], 'CAUGHT-ELSEWHERE', (failed[0] if failed else '')[:160]
+        if r.returncode == 0:
+            # the property's bounded stand-in (if any) runs after the deductive check, as in tools/check.sh
+            b = subprocess.run(['python3', '/verif/tools/bounded.py', m['property'], 'quick'], env=dict(env, VERIF_REPO=repo, VERIF_NOEVIDENCE='1'), capture_output=True, text=True)
+            bv = [l for l in b.stdout.splitlines() if l.startswith('VIOLATION')]
+            if b.returncode == 1 and bv:
+                if m['expect'] == 'bounded' or m['expect'] in bv[0]:
+                    return m['id'], 'CAUGHT', bv[0][:160]
+                return m['id'], 'CAUGHT-ELSEWHERE', bv[0][:160]
         return m['id'], 'MISSED', 'exit %d: %s' % (r.returncode, r.stdout[-300:])
     finally:
         shutil.rmtree(d, ignore_errors=True)
